@@ -1,5 +1,6 @@
 import IdModel.Panic.Model
 import IdModel.Panic.Sites
+import IdModel.Panic.Linked
 import IdModel.Meta.Model
 import IdModel.Props.C10
 import IdModel.Props.C12
@@ -270,9 +271,126 @@ theorem modelled_entry_points_never_panic :
    fun s u h => (C13.format_total u ((C13.parse_total_in_range s).2 u h)).imp fun _ hb => hb.1,
    C12.get_total, C12.set_total, C16.kb_never_panics⟩
 
+/-! ## the service wrappers whose accessors `unreachable!` / `expect` -/
+
+open Linked in
+/-- `LinkedDomainService`: neither the check nor the constructor panics, and on every service the check accepts the
+accessor `domains` returns a list (its `unreachable!` and `expect` arms are not reachable) -/
+theorem linked_domain_total (s : Svc) :
+    (ldCheck s).isPanic = false ∧ (ldCheck s = .ok () → ∃ ds, ldDomains s = .ok ds) := by
+  obtain ⟨ts, ep⟩ := s
+  refine ⟨?_, ?_⟩
+  · unfold ldCheck
+    split; · rfl
+    split; · rfl
+    split; · rfl
+    cases ep with
+    | one u => simp only []; split <;> rfl
+    | set us => simp only []; split <;> rfl
+    | map m =>
+      simp only []
+      split; · rfl
+      split
+      · split <;> rfl
+      · split <;> rfl
+  · unfold ldCheck ldDomains
+    split; · intro h; cases h
+    split; · intro h; cases h
+    split; · intro h; cases h
+    cases ep with
+    | one u => intro _; exact ⟨[u], rfl⟩
+    | set us => simp only [show Gen.C05.ldSetRefused = true from rfl, if_true]; intro h; cases h
+    | map m =>
+      simp only []
+      split; · intro h; cases h
+      cases hl : lookup m "origins" with
+      | none => simp only [show Gen.C05.ldOriginsRequired = true from rfl, if_true]; intro h; cases h
+      | some os => intro _; exact ⟨os, rfl⟩
+
+open Linked in
+/-- what `domains` returns for an accepted service: the endpoint's URLs, every one `https` and a bare origin -/
+theorem linked_domain_urls (s : Svc) (ds : List U) (h : ldCheck s = .ok ()) (hd : ldDomains s = .ok ds) :
+    ds.all okUrl = true := by
+  obtain ⟨ts, ep⟩ := s
+  unfold ldCheck at h
+  unfold ldDomains at hd
+  split at h; · cases h
+  split at h; · cases h
+  split at h; · cases h
+  cases ep with
+  | one u =>
+    simp only [] at h hd
+    split at h
+    · cases hd; simpa using ‹okUrl u = true›
+    · cases h
+  | set us => cases hd
+  | map m =>
+    simp only [] at h hd
+    split at h; · cases h
+    cases hl : lookup m "origins" with
+    | none => rw [hl] at hd; cases hd
+    | some os =>
+      rw [hl] at h hd
+      simp only [] at h hd
+      cases hd
+      split at h
+      · assumption
+      · cases h
+
+open Linked in
+/-- the constructor never panics, the wrapped service returns exactly the domains it was built from, and the constructor
+refuses exactly the lists holding a URL of another scheme -/
+theorem linked_domain_new (ds : List U) :
+    (ldNew ds).isPanic = false ∧
+    (∀ s, ldNew ds = .ok s → ldDomains s = .ok ds) ∧
+    ((∃ s, ldNew ds = .ok s) ↔ ds.all (·.https) = true) := by
+  unfold ldNew
+  cases hall : ds.all (·.https) with
+  | false => simp [Outcome.isPanic]
+  | true =>
+    simp only [Bool.not_true, Bool.false_eq_true, if_false]
+    cases ds with
+    | nil => simp [ldDomains, lookup, Outcome.isPanic]
+    | cons a t =>
+      cases t with
+      | nil => simp [ldDomains, Outcome.isPanic]
+      | cons b t' => simp [ldDomains, lookup, Outcome.isPanic]
+
+open Linked in
+/-- `LinkedVerifiablePresentationService`: the same three facts -/
+theorem linked_vp_total (s : Svc) :
+    (lvpCheck s).isPanic = false ∧ (lvpCheck s = .ok () → ∃ us, lvpUrls s = .ok us) := by
+  obtain ⟨ts, ep⟩ := s
+  refine ⟨?_, ?_⟩
+  · unfold lvpCheck
+    split; · rfl
+    split; · rfl
+    split; · rfl
+    cases ep <;> simp only [] <;> first | rfl | (split <;> rfl)
+  · unfold lvpCheck lvpUrls
+    split; · intro h; cases h
+    split; · intro h; cases h
+    split; · intro h; cases h
+    cases ep with
+    | one u => intro _; exact ⟨[u], rfl⟩
+    | set us => intro _; exact ⟨us, rfl⟩
+    | map m => simp only [show Gen.C05.lvpMapRefused = true from rfl, if_true]; intro h; cases h
+
+open Linked in
+theorem linked_vp_new (us : List U) :
+    (lvpNew us).isPanic = false ∧ (∀ s, lvpNew us = .ok s → lvpUrls s = .ok us ∧ lvpCheck s = .ok ()) := by
+  unfold lvpNew
+  cases us with
+  | nil => simp [lvpUrls, lvpCheck, Outcome.isPanic]
+  | cons a t =>
+    cases t with
+    | nil => simp [lvpUrls, lvpCheck, Outcome.isPanic]
+    | cons b t' => simp [lvpUrls, lvpCheck, Outcome.isPanic]
+
 /-! ## the regenerated inventory of panic-capable sites -/
 
-/-- **every panic-capable site of the anchored files has a disposition** (a new `unwrap`, `expect`, index expression …
+/-- **every panic-capable site of the library's non-test source has a disposition** (the anchored files and, since the
+fourth session, every other source file of the library crates: `Gen.C05.filesInventoried` files) (a new `unwrap`, `expect`, index expression …
 in one of these files changes the regenerated inventory and breaks this obligation until it is classified) -/
 theorem sites_classified : Gen.C05.sites.all (fun s => (Sites.disposition s).isSome) = true := by decide +kernel
 
@@ -288,5 +406,10 @@ example : parseIntegrity [97, 45, 65, 65, 65, 65, 45, 120] = .ok [97, 45, 65, 65
 example : digestBytes [97, 45, 65, 65, 65, 65, 45, 120] = .ok [0, 0, 0] := by decide
 example : parseIntegrity [97, 45, 65] = .err () := by decide
 example : parseIntegrity [97] = .err () := by decide
+-- a linked-domain service with an `origins` map of two bare https origins is accepted and returns both
+example : Linked.ldCheck { types := ["LinkedDomains"], ep := .map [("origins", [⟨true, true, 1⟩, ⟨true, true, 2⟩])] } = .ok () := by decide
+example : Linked.ldCheck { types := ["LinkedDomains"], ep := .set [⟨true, true, 1⟩] } = .err () := by decide
+example : Linked.ldCheck { types := ["LinkedDomains"], ep := .map [("x", [⟨true, true, 1⟩])] } = .err () := by decide
+example : Linked.lvpCheck { types := ["LinkedVerifiablePresentation"], ep := .set [⟨false, false, 1⟩] } = .ok () := by decide
 
 end IdModel.Props.C05
